@@ -367,4 +367,77 @@ def r39c(F):
     return r
 
 
-RULES = [r36, r37, r38, r39, r92, r39c]
+VALUE_VARIANTS = {"P", "C", "T", "F", "M", "S", "List", "Tuple", "Module", "Func"}
+
+
+def _stored_position_source(F, fn, op, depth=3):
+    """does the position operand come out of a value's payload (a downcast to a Value / Composite variant) without passing
+    through the stack (`VM::pop` hands out the position an entry was pushed with)?  Backward over copies, references, and the
+    arguments of calls that only pass data on; stops at `pop` results, parameters and constants.  -> the offending place or None"""
+    seen = set()
+    work = []
+    pl0 = op_place(op)
+    if pl0 is None:
+        return None
+    work.append(pl0)
+    calls_by_dest = {}
+    for b, t in fn.calls():
+        if not t["dest"]["p"]:
+            calls_by_dest.setdefault(t["dest"]["l"], []).append((b, t))
+    assigns_by_local = {}
+    for b, j, pl, rv, meta in fn.assigns():
+        assigns_by_local.setdefault(pl["l"], []).append((b, pl, rv))
+    while work:
+        pl = work.pop()
+        vs = [e["v"] for e in pl["p"] if isinstance(e, dict) and "v" in e and e["v"] in VALUE_VARIANTS]
+        if vs:
+            return "%s as %s" % ("/".join(sorted(fn.var_names().get(pl["l"], ())) or ["_%d" % pl["l"]]), "/".join(vs))
+        l = pl["l"]
+        if l in seen:
+            continue
+        seen.add(l)
+        for b, t in calls_by_dest.get(l, ()):
+            c = callee(t)
+            if c.endswith(("VM::pop", "OpPointer::pos", "Vec<T, A>::pop")) or c.endswith("::pop"):
+                continue
+            # an element lookup hands out part of its receiver; the index only chooses which
+            args = t["args"][:1] if c.split("::")[-1].rstrip(">") in ("get", "index", "get_mut", "nth", "get_unchecked") else t["args"]
+            for a in args:
+                ap = op_place(a)
+                if ap is not None:
+                    work.append(ap)
+        for b, dpl, rv in assigns_by_local.get(l, ()):
+            if rv["k"] in ("use", "ref", "cast", "agg", "addr", "copy_for_deref"):
+                for o_ in rv.get("ops", ()):
+                    ap = op_place(o_)
+                    if ap is not None:
+                        work.append(ap)
+                if "place" in rv and isinstance(rv["place"], dict):
+                    work.append(rv["place"])
+    return None
+
+
+def r39s(F):
+    r = RuleResult("R39s", "stack positions are positions of the expression being evaluated",
+                   "every VM::push in vm.rs / runtime.rs takes its position from a popped entry, the handler's pos parameter or the op "
+                   "pointer - never out of the position list stored inside a value (where the value was written, not where it is used)",
+                   floor=40)
+    n = 0
+    for name, fn in sorted(F.fns.items()):
+        if fn.derived or fn.file not in ("src/build/opcode/vm.rs", "src/build/opcode/runtime.rs"):
+            continue
+        sites = [(b, t) for b, t in fn.calls() if callee(t).endswith("VM::push")]
+        per = {}
+        for b, t in sites:
+            bad = _stored_position_source(F, fn, t["args"][2]) if len(t["args"]) > 2 else None
+            short = name.split("::")[-1] if "{closure" not in name else name.split("::")[-2] + "::closure"
+            k = per.get(short, 0)
+            per[short] = k + 1
+            n += 1
+            r.inst("%s:push#%d" % (short, k), fn.where(b), bad is None,
+                   "position from the stack / the op" if bad is None else
+                   "the pushed position is read out of the value itself (%s): a fault in what uses it is reported where the value was written" % bad)
+    return r
+
+
+RULES = [r36, r37, r38, r39, r92, r39c, r39s]
